@@ -52,6 +52,7 @@ type Path struct {
 	End     string // "return", "hdr<N>", "panic"
 	Back    bool   // ended by following a back edge
 	Mem     map[string]memEntry
+	Fresh   map[string]bool // allocation sites executed on this segment
 	Blocks  []int
 	Next    map[string]*Term // on arrival at a header: value flowing into each of its phis
 	PrePath *Path            // for a segment started at a header: the path whose arrival seeded it
@@ -87,7 +88,42 @@ func (p *Path) entailed(k string) int {
 		p.rel = nil
 	}
 	p.relN = len(p.Atoms)
+	if v := p.oneBytePrefix(k); v != 0 {
+		return v
+	}
+	if v := p.otherConstant(k); v != 0 {
+		return v
+	}
 	return entails(p.Atoms, &p.rel, k)
+}
+
+// oneBytePrefix: strings.HasPrefix(s, "c") for a one-byte literal is decided by
+// a comparison of s[0] with c (s[0] == c holds only for a non-empty s, and
+// where s[0] was read and differs, or s is empty, the prefix test is false).
+func (p *Path) oneBytePrefix(k string) int {
+	const pre = "call:strings.HasPrefix("
+	if !strings.HasPrefix(k, pre) || !strings.HasSuffix(k, ")") {
+		return 0
+	}
+	i := strings.LastIndex(k, ", \"")
+	if i < 0 {
+		return 0
+	}
+	lit, err := strconv.Unquote(k[i+2 : len(k)-1])
+	if err != nil || len(lit) != 1 {
+		return 0
+	}
+	s := k[len(pre):i]
+	want := "bin:==(index(" + s + ", 0), " + strconv.Itoa(int(lit[0])) + ")"
+	for _, a := range p.Atoms {
+		if a.T.Key() == want {
+			if a.Pos {
+				return 1
+			}
+			return -1
+		}
+	}
+	return 0
 }
 
 // Val returns +1/-1 if the path fixes atom k to true/false and 0 otherwise.
@@ -279,7 +315,7 @@ func (x *Exec) Summarize(fn *ssa.Function) []*Path {
 	run = func(start string, pre, preAt, preEff int, fr *frame, st *state, b, pred *ssa.BasicBlock, first bool, prePath *Path) {
 		finish := func(st *state, end string, rets []*Term, back bool) *Path {
 			x.npaths++
-			p := &Path{Fn: fn, Start: start, Pre: pre, PreAt: preAt, PreEff: preEff, Atoms: st.atoms, Effects: st.effects, Rets: rets, End: end, Back: back, Mem: st.mem, Blocks: st.blocks, PrePath: prePath}
+			p := &Path{Fn: fn, Start: start, Pre: pre, PreAt: preAt, PreEff: preEff, Atoms: st.atoms, Effects: st.effects, Rets: rets, End: end, Back: back, Mem: st.mem, Blocks: st.blocks, PrePath: prePath, Fresh: st.fresh}
 			out = append(out, p)
 			return p
 		}
@@ -301,6 +337,13 @@ func (x *Exec) Summarize(fn *ssa.Function) []*Path {
 					if pb == from {
 						pa.Next[name] = x.val(fr, phi.Edges[j])
 					}
+				}
+			}
+			// variables shared with a closure live in cells, not in φs: their
+			// content is loop-carried all the same
+			for _, c := range capturedCells(fn, h) {
+				if at, ok := fr.env[c]; ok && !writtenOnce(c, h) {
+					pa.Next[cellName(c)] = x.load(st, at, c.Type().Underlying().(*types.Pointer).Elem())
 				}
 			}
 			if !back {
@@ -346,6 +389,16 @@ func (x *Exec) Summarize(fn *ssa.Function) []*Path {
 				name = phi.Name()
 			}
 			fr.env[phi] = &Term{Op: "loopphi", Name: fmt.Sprintf("%s@hdr%d", name, a.hdr.Index), Type: phi.Type()}
+		}
+		for _, c := range capturedCells(fn, a.hdr) {
+			if at, ok := fr.env[c]; ok {
+				if e, known := a.st.mem[at.Key()]; known && writtenOnce(c, a.hdr) {
+					st.mem[at.Key()] = e // assigned once before the loop: still holds that value
+					continue
+				}
+				et := c.Type().Underlying().(*types.Pointer).Elem()
+				st.mem[at.Key()] = memEntry{Addr: at, Val: &Term{Op: "loopphi", Name: fmt.Sprintf("%s@hdr%d", cellName(c), a.hdr.Index), Type: et}}
+			}
 		}
 		run(fmt.Sprintf("hdr%d", a.hdr.Index), preIdx, len(st.atoms), len(st.effects), fr, st, a.hdr, a.pre, true, a.path)
 		if x.MaxPaths > 0 && x.npaths > x.MaxPaths {
@@ -574,6 +627,8 @@ func (x *Exec) instrs(fr *frame, b *ssa.BasicBlock, idx int, pred *ssa.BasicBloc
 			if v == nil {
 				v = &Term{Op: "opaque", Name: fr.fn.Name() + "." + ins.Name()}
 				x.problem("phi without matching predecessor in %s", funcName(fr.fn))
+			} else if len(ins.Edges) == 2 {
+				v = x.clamp(fr, st, ins, pred, v)
 			}
 			fr.env[ins] = v
 		case *ssa.If:
@@ -588,6 +643,7 @@ func (x *Exec) instrs(fr *frame, b *ssa.BasicBlock, idx int, pred *ssa.BasicBloc
 				return
 			}
 			at, pol := normAtom(c)
+			joinV, joinKnown := joinIsNil(at, st.atoms)
 			for _, br := range []struct {
 				to  *ssa.BasicBlock
 				pos bool
@@ -595,6 +651,11 @@ func (x *Exec) instrs(fr *frame, b *ssa.BasicBlock, idx int, pred *ssa.BasicBloc
 				// syntactic feasibility
 				feasible := true
 				known := false
+				if joinKnown && br.pos != joinV {
+					// errors.Join(list...) == nil, with the list's elements known
+					// on this path to be nil / non-nil: only one side is feasible
+					continue
+				}
 				for _, a := range st.atoms {
 					if a.T.Key() == at.Key() {
 						known = true
@@ -794,6 +855,13 @@ func (x *Exec) load(st *state, addr *Term, typ types.Type) *Term {
 	if r := addr.addrRoot(); r != nil && (r.Op == "alloc") && st.fresh[r.Key()] && ep == 0 {
 		t.Op = "zero"
 		t.Idx = 0
+		// the zero value of a slice, map, pointer, function or interface is nil
+		if typ != nil {
+			switch typ.Underlying().(type) {
+			case *types.Slice, *types.Map, *types.Pointer, *types.Signature, *types.Interface, *types.Chan:
+				return &Term{Op: "const", Name: "nil", Type: typ}
+			}
+		}
 	}
 	return t
 }
@@ -972,7 +1040,17 @@ func (x *Exec) simple(fr *frame, ins ssa.Instruction, st *state) {
 			}
 			return x.val(fr, s)
 		}
-		fr.env[v] = &Term{Op: "slice", Args: []*Term{base, opt(v.Low), opt(v.High), opt(v.Max)}, Type: v.Type()}
+		lo, hi := opt(v.Low), opt(v.High)
+		// s[:b][a:c] is s[a:c] (and s[:b][a:] is s[a:b]) for strings: a prefix
+		// re-sliced reads alike however many steps it was taken in
+		if bt, ok := v.X.Type().Underlying().(*types.Basic); ok && bt.Info()&types.IsString != 0 &&
+			base.Op == "slice" && len(base.Args) == 4 && base.Args[1].IsConst("_") && !base.Args[2].IsConst("_") && v.Max == nil {
+			if hi.IsConst("_") {
+				hi = base.Args[2]
+			}
+			base = base.Args[0]
+		}
+		fr.env[v] = &Term{Op: "slice", Args: []*Term{base, lo, hi, opt(v.Max)}, Type: v.Type()}
 	case *ssa.TypeAssert:
 		a := x.val(fr, v.X)
 		fr.env[v] = &Term{Op: "typeassert", Name: types.TypeString(v.AssertedType, nil), Args: []*Term{a}, Type: v.Type()}
@@ -1124,6 +1202,12 @@ func (x *Exec) call(fr *frame, b *ssa.BasicBlock, i int, pred *ssa.BasicBlock, i
 	c := ins.Common()
 	name := callName(c)
 	args := x.callArgs(fr, c)
+	// a module helper that is maps.Copy written out (`for k, v := range src { dst[k] = v }`)
+	if callee := c.StaticCallee(); callee != nil && len(callee.Blocks) > 0 && len(args) == 2 && callee.Pkg != nil && strings.HasPrefix(callee.Pkg.Pkg.Path(), modPath) {
+		if d, s, ok := mapCopyShape(callee); ok {
+			name, args = "maps.Copy", []*Term{args[d], args[s]}
+		}
+	}
 	eff := func(kind string, res *Term) {
 		st.effects = append(st.effects, Effect{Kind: kind, Name: name, Args: args, Res: res, Fn: funcName(fr.fn), At: x.at(ins.Pos()), NAtoms: len(st.atoms), Pos: ins.Pos()})
 	}
@@ -1151,7 +1235,13 @@ func (x *Exec) call(fr *frame, b *ssa.BasicBlock, i int, pred *ssa.BasicBlock, i
 	case c.StaticCallee() == nil:
 		if bi, ok := c.Value.(*ssa.Builtin); ok {
 			switch bi.Name() {
-			case "len", "cap", "min", "max", "real", "imag", "complex":
+			case "min", "max":
+				// (two operands in canonical order: min(a, b) and min(b, a) read alike)
+				if len(args) == 2 && args[0].Key() > args[1].Key() {
+					args[0], args[1] = args[1], args[0]
+				}
+				fr.env[ins] = result(bi.Name())
+			case "len", "cap", "real", "imag", "complex":
 				fr.env[ins] = result(bi.Name())
 			case "append":
 				fr.env[ins] = &Term{Op: "append", Args: args, Type: ins.Type()}
@@ -1208,6 +1298,65 @@ func (x *Exec) call(fr *frame, b *ssa.BasicBlock, i int, pred *ssa.BasicBlock, i
 	if m, ok := x.libModel(name, args, ins.Type()); ok {
 		fr.env[ins] = m
 		return false
+	}
+	// strings.CutPrefix(s, "lit") is `if HasPrefix(s, "lit") { s[len("lit"):], true } else { s, false }`;
+	// strings.CutSuffix(s, p) is (TrimSuffix(s, p), HasSuffix(s, p))
+	if name == "strings.CutSuffix" && len(args) == 2 {
+		fr.env[ins] = &Term{Op: "tuple", Name: name, Args: []*Term{
+			{Op: "call", Name: "strings.TrimSuffix", Args: args, Type: types.Typ[types.String]},
+			{Op: "call", Name: "strings.HasSuffix", Args: args, Type: types.Typ[types.Bool]},
+		}}
+		return false
+	}
+	if name == "strings.TrimPrefix" && len(args) == 2 {
+		if lit, ok := args[1].ConstString(); ok {
+			has := &Term{Op: "call", Name: "strings.HasPrefix", Args: args, Type: types.Typ[types.Bool]}
+			for _, a := range st.atoms {
+				if a.T.Key() == has.Key() {
+					if a.Pos {
+						none := constTerm("_")
+						fr.env[ins] = &Term{Op: "slice", Args: []*Term{args[0], constTerm(strconv.Itoa(len(lit))), none, none}, Type: types.Typ[types.String]}
+					} else {
+						fr.env[ins] = args[0]
+					}
+					return false
+				}
+			}
+		}
+	}
+	if name == "strings.CutPrefix" && len(args) == 2 {
+		if lit, ok := args[1].ConstString(); ok {
+			at := &Term{Op: "call", Name: "strings.HasPrefix", Args: args, Type: types.Typ[types.Bool]}
+			none := constTerm("_")
+			for _, found := range []bool{true, false} {
+				feasible, known := true, false
+				for _, a := range st.atoms {
+					if a.T.Key() == at.Key() {
+						known = true
+						if a.Pos != found {
+							feasible = false
+						}
+					}
+				}
+				if !feasible {
+					continue
+				}
+				st2 := st.clone()
+				fr2 := cloneChain(fr)
+				if !known {
+					st2.atoms = append(st2.atoms, Atom{T: at, Pos: found, Fn: funcName(fr.fn), At: x.at(ins.Pos())})
+				}
+				var rets []*Term
+				if found {
+					rets = []*Term{{Op: "slice", Args: []*Term{args[0], constTerm(strconv.Itoa(len(lit))), none, none}, Type: types.Typ[types.String]}, constTerm("true")}
+				} else {
+					rets = []*Term{args[0], constTerm("false")}
+				}
+				fr2.env[ins] = &Term{Op: "tuple", Name: name, Args: rets}
+				x.instrs(fr2, b, i+1, pred, st2, false, hdrs, onHdr, onRet)
+			}
+			return true
+		}
 	}
 	if name == "strings.Cut" && len(args) == 2 {
 		if c1, ok := oneByte(args[1]); ok {
@@ -1305,6 +1454,13 @@ func (x *Exec) call(fr *frame, b *ssa.BasicBlock, i int, pred *ssa.BasicBlock, i
 					x.havoc(st, a)
 				}
 			}
+			// a closure handed to code that is not inlined may be run there:
+			// what is known of the variables it captured is forgotten
+			if a.Op == "closure" {
+				for _, b := range a.Args {
+					x.havoc(st, b)
+				}
+			}
 		}
 		return false
 	}
@@ -1316,7 +1472,15 @@ func (x *Exec) call(fr *frame, b *ssa.BasicBlock, i int, pred *ssa.BasicBlock, i
 		cf.env[p] = args[k]
 	}
 	if len(callee.FreeVars) > 0 {
-		x.problem("inlining closure %s with free variables", name)
+		// a closure called where it was made: its free variables are the
+		// addresses of the enclosing function's variables it captured
+		if mc, ok := c.Value.(*ssa.MakeClosure); ok && len(mc.Bindings) == len(callee.FreeVars) {
+			for k, fv := range callee.FreeVars {
+				cf.env[fv] = x.val(fr, mc.Bindings[k])
+			}
+		} else {
+			x.problem("inlining closure %s with free variables", name)
+		}
 	}
 	x.block(cf, callee.Blocks[0], nil, st, false, nil, nil, func(st2 *state, rets []*Term, kind string) {
 		if kind == "panic" {
@@ -1448,4 +1612,273 @@ func fieldOf(v *Term, name string) *Term {
 		}
 	}
 	return &Term{Op: "field", Name: name, Args: []*Term{v}}
+}
+
+// joinIsNil decides the atom errors.Join(list...) == nil where list is a
+// literal chain of appends starting from nil whose elements the path has
+// already classified: Join is nil iff every operand is nil.
+func joinIsNil(at *Term, atoms []Atom) (value, known bool) {
+	if at.Op != "bin" || at.Name != "==" || len(at.Args) != 2 {
+		return false, false
+	}
+	j, n := at.Args[0], at.Args[1]
+	if j.IsConst("nil") {
+		j, n = n, j
+	}
+	if !n.IsConst("nil") || j.Op != "call" || j.Name != "errors.Join" || len(j.Args) != 1 {
+		return false, false
+	}
+	items, ok := errsChain(j.Args[0], "nil")
+	if !ok {
+		return false, false
+	}
+	allNil := true
+	for _, it := range items {
+		if knownNonNil(it) {
+			return false, true
+		}
+		decided := false
+		for _, a := range atoms {
+			if a.T.Op == "bin" && a.T.Name == "==" && len(a.T.Args) == 2 && a.T.Args[1].IsConst("nil") && a.T.Args[0].Key() == it.Key() {
+				decided = true
+				if !a.Pos {
+					return false, true
+				}
+			}
+		}
+		if !decided {
+			allNil = false
+		}
+	}
+	if allNil {
+		return true, true
+	}
+	return false, false
+}
+
+// clamp: a value selected between two candidates by a comparison of those very
+// candidates is their minimum (or maximum) — `e := len(s); if lim < e { e = lim }`
+// reads as min(lim, len(s)), like the builtin. v is the candidate selected on
+// this path; the comparison is among the path's conditions.
+func (x *Exec) clamp(fr *frame, st *state, phi *ssa.Phi, pred *ssa.BasicBlock, v *Term) *Term {
+	if !isIntegerish(v) {
+		return v
+	}
+	var otherV ssa.Value
+	for j, p := range phi.Block().Preds {
+		if p != pred {
+			otherV = phi.Edges[j]
+		}
+	}
+	if otherV == nil {
+		return v
+	}
+	var other *Term
+	if _, isConst := otherV.(*ssa.Const); isConst {
+		other = x.val(fr, otherV)
+	} else if t, ok := fr.env[otherV]; ok {
+		other = t
+	} else {
+		return v
+	}
+	vk, ok := stripConv(v).Key(), stripConv(other).Key()
+	if vk == ok {
+		return v
+	}
+	for i := len(st.atoms) - 1; i >= 0; i-- {
+		a := st.atoms[i]
+		if a.T.Op != "bin" || a.T.Name != "<" || len(a.T.Args) != 2 {
+			continue
+		}
+		l, r := stripConv(a.T.Args[0]).Key(), stripConv(a.T.Args[1]).Key()
+		var vSmaller bool
+		switch {
+		case l == vk && r == ok:
+			vSmaller = a.Pos // v < other; or v ≥ other
+		case l == ok && r == vk:
+			vSmaller = !a.Pos // other < v; or other ≥ v, i.e. v ≤ other
+		default:
+			continue
+		}
+		op := "max"
+		if vSmaller {
+			op = "min"
+		}
+		args := []*Term{v, other}
+		if args[0].Key() > args[1].Key() {
+			args[0], args[1] = args[1], args[0]
+		}
+		return &Term{Op: op, Name: "builtin." + op, Args: args, Type: phi.Type()}
+	}
+	return v
+}
+
+// mapCopyShape recognises `func(dst, src M) { for k, v := range src { dst[k] = v } }`.
+func mapCopyShape(fn *ssa.Function) (dst, src int, ok bool) {
+	if len(fn.Params) != 2 || fn.Signature.Results().Len() != 0 || fn.Signature.Recv() != nil {
+		return 0, 0, false
+	}
+	for _, p := range fn.Params {
+		if _, isMap := p.Type().Underlying().(*types.Map); !isMap {
+			return 0, 0, false
+		}
+	}
+	dst, src = -1, -1
+	updates := 0
+	for _, b := range fn.Blocks {
+		for _, ins := range b.Instrs {
+			switch v := ins.(type) {
+			case *ssa.Range:
+				for i, p := range fn.Params {
+					if v.X == p {
+						src = i
+					}
+				}
+			case *ssa.MapUpdate:
+				updates++
+				k, kok := v.Key.(*ssa.Extract)
+				e, eok := v.Value.(*ssa.Extract)
+				if !kok || !eok || k.Index != 1 || e.Index != 2 || k.Tuple != e.Tuple {
+					return 0, 0, false
+				}
+				if _, isNext := k.Tuple.(*ssa.Next); !isNext {
+					return 0, 0, false
+				}
+				for i, p := range fn.Params {
+					if v.Map == p {
+						dst = i
+					}
+				}
+			case *ssa.Next, *ssa.Extract, *ssa.If, *ssa.Jump, *ssa.Return, *ssa.DebugRef:
+			default:
+				return 0, 0, false
+			}
+		}
+	}
+	if updates != 1 || dst < 0 || src < 0 || dst == src {
+		return 0, 0, false
+	}
+	return dst, src, true
+}
+
+// capturedCells lists the local variables of fn that are shared with a closure
+// (so that they live in a heap cell instead of SSA registers), are declared
+// before the loop headed by h, and whose address is used only to load, store
+// and bind closures.
+func capturedCells(fn *ssa.Function, h *ssa.BasicBlock) []*ssa.Alloc {
+	var out []*ssa.Alloc
+	for _, b := range fn.Blocks {
+		if b == h || !b.Dominates(h) {
+			continue
+		}
+		for _, ins := range b.Instrs {
+			a, ok := ins.(*ssa.Alloc)
+			if !ok || a.Referrers() == nil {
+				continue
+			}
+			captured, clean := false, true
+			for _, ref := range *a.Referrers() {
+				switch r := ref.(type) {
+				case *ssa.Store:
+					if r.Addr != a {
+						clean = false
+					}
+				case *ssa.UnOp, *ssa.DebugRef:
+				case *ssa.MakeClosure:
+					captured = true
+					// the closure itself is only ever called, directly
+					if r.Referrers() != nil {
+						for _, u := range *r.Referrers() {
+							switch c := u.(type) {
+							case *ssa.DebugRef:
+							case ssa.CallInstruction:
+								if c.Common().Value != r {
+									clean = false
+								}
+							default:
+								clean = false
+							}
+						}
+					}
+				default:
+					clean = false
+				}
+			}
+			if captured && clean {
+				out = append(out, a)
+			}
+		}
+	}
+	return out
+}
+
+func cellName(a *ssa.Alloc) string {
+	if a.Comment != "" {
+		return a.Comment
+	}
+	return a.Name()
+}
+
+// writtenOnce: the cell is stored to exactly once, by the function itself, in
+// a block that dominates the loop header h (a spilled parameter, a variable
+// initialised before the loop and only read afterwards).
+func writtenOnce(c *ssa.Alloc, h *ssa.BasicBlock) bool {
+	n := 0
+	okPlace := true
+	var visit func(addr ssa.Value, refs *[]ssa.Instruction, inClosure bool)
+	visit = func(addr ssa.Value, refs *[]ssa.Instruction, inClosure bool) {
+		if refs == nil {
+			return
+		}
+		for _, ref := range *refs {
+			switch r := ref.(type) {
+			case *ssa.Store:
+				if r.Addr == addr {
+					n++
+					if inClosure || r.Block() == h || !r.Block().Dominates(h) {
+						okPlace = false
+					}
+				}
+			case *ssa.MakeClosure:
+				if cf, _ := r.Fn.(*ssa.Function); cf != nil {
+					for i, bnd := range r.Bindings {
+						if bnd == addr && i < len(cf.FreeVars) {
+							visit(cf.FreeVars[i], cf.FreeVars[i].Referrers(), true)
+						}
+					}
+				}
+			}
+		}
+	}
+	visit(c, c.Referrers(), false)
+	return n == 1 && okPlace
+}
+
+// otherConstant: x == c is false on a path that carries x == c' for a
+// different constant c'.
+func (p *Path) otherConstant(k string) int {
+	if !strings.HasPrefix(k, "bin:==(") {
+		return 0
+	}
+	for _, a := range p.Atoms {
+		if !a.Pos || a.T.Op != "bin" || a.T.Name != "==" || len(a.T.Args) != 2 || a.T.Args[1].Op != "const" || a.T.Args[0].Op == "const" {
+			continue
+		}
+		pre := "bin:==(" + a.T.Args[0].Key() + ", "
+		if !strings.HasPrefix(k, pre) || !strings.HasSuffix(k, ")") {
+			continue
+		}
+		other := k[len(pre) : len(k)-1]
+		if other == a.T.Args[1].Key() {
+			return 1
+		}
+		// the remainder must itself be a constant: a quoted string or a number
+		if _, err := strconv.Unquote(other); err == nil {
+			return -1
+		}
+		if _, err := strconv.ParseInt(other, 10, 64); err == nil {
+			return -1
+		}
+	}
+	return 0
 }
